@@ -292,6 +292,16 @@ def actix_rules(crate, res):
                     if i2 and i2["kind"] == "discr" and (i2.get("adt") or "").endswith("task::Poll") and i2["place"] is not None and \
                             mentions_call(canon(v, v.origin_place(i2["place"])), p):
                         pend = v.variant_target(i2, "Pending")
+            # a future taken *out of* the extractor's state (`self.fut.take()`) lives in a local of this call: unless it is put
+            # back on the Pending path it is dropped there, and the next poll has nothing to resume
+            taken = term_mentions(fut, lambda x: x[0] == "call" and (call_name(v, x) or "") in ("std::option::Option::take", "std::mem::take", "std::mem::replace"))
+            if taken and pend is not None:
+                region = skeleton.dominated(v, pend)
+                put_back = any(st["k"] == "assign" and st["place"]["p"] and any(pp["k"] == "deref" for pp in st["place"]["p"])
+                               for x in region for st in v.blocks[x]["stmts"])
+                if not put_back:
+                    fs.append(fnd("C20.AWEB", v, "the framework future is taken out of the extractor's state before it is polled and not put back when it answers Pending: "
+                                  "it is dropped with the request payload, and the next poll cannot resume it", p))
             okp = False
             if pend is not None:
                 for bb2, path, var, ops, st in agg_results(v):
